@@ -304,13 +304,14 @@ def r5_non_interference(ctx):
         bad = []
         for c in calls_in(w.node):
             nm = (dotted(c.func) or '').rsplit('.', 1)[-1] if dotted(c.func) else (c.func.attr if isinstance(c.func, ast.Attribute) else '')
-            if nm in TARGET_READS and not (isinstance(c.func, ast.Attribute) and isinstance(c.func.value, ast.Name) and c.func.value.id in ('contents', 'stream')):
+            if nm in TARGET_READS and not (isinstance(c.func, ast.Attribute) and isinstance(c.func.value, ast.Name) and c.func.value.id in [a.arg for a in w.node.args.args]):
                 bad.append(c)
             if nm == 'seek' and len(c.args) >= 2:
                 whence = c.args[1]
                 if not (isinstance(whence, ast.Constant) and whence.value == 0) and 'SEEK_SET' not in src(whence):
                     bad.append(c)
-            if nm == 'read' and isinstance(c.func, ast.Attribute) and isinstance(c.func.value, ast.Name) and c.func.value.id == 'file':
+            opened = {i.optional_vars.id for ws in walk_local(w.node) if isinstance(ws, ast.With) for i in ws.items if isinstance(i.optional_vars, ast.Name)}
+            if nm == 'read' and isinstance(c.func, ast.Attribute) and isinstance(c.func.value, ast.Name) and c.func.value.id in opened:
                 bad.append(c)
         ctx.check(
             not bad,
@@ -329,7 +330,7 @@ def r5_non_interference(ctx):
     cfg = cfg_of(fn.node)
     est = []
     for l in walk_local(fn.node):
-        if isinstance(l, ast.For) and any(isinstance(x, ast.Name) and x.id in ('files_metadata',) or (isinstance(x, ast.Attribute) and x.attr in ('items', 'values')) for x in ast.walk(l.iter)):
+        if isinstance(l, ast.For) and any(isinstance(x, ast.Attribute) and x.attr in ('items', 'values') for x in ast.walk(l.iter)):
             opens = [c for c in calls_in(l) if isinstance(c.func, ast.Attribute) and c.func.attr == 'open' and c.args and isinstance(c.args[0], ast.Constant) and 'w' in str(c.args[0].value)]
             truncs = [c for c in calls_in(l) if isinstance(c.func, ast.Attribute) and c.func.attr == 'truncate' and c.args]
             if opens and truncs:
@@ -552,10 +553,20 @@ def r9_plan_pairing(ctx):
                     for t2 in a.targets:
                         if isinstance(t2, ast.Name):
                             alias = t2.id
+    # the references mapping: the one whose items() feed the chunk consumers
+    refs_names = set()
+    cons_names = {f.name for f in cons}
+    for c in calls_in(fn.node):
+        if isinstance(c.func, ast.Attribute) and c.func.attr in ('run_in_executor', 'submit') and any(isinstance(a, ast.Name) and a.id in cons_names for a in c.args):
+            for g in ast.walk(getattr(c, '_parent', c)):
+                pass
+    for n in ast.walk(fn.node):
+        if isinstance(n, ast.comprehension) and isinstance(n.iter, ast.Call) and isinstance(n.iter.func, ast.Attribute) and n.iter.func.attr == 'items' and isinstance(n.iter.func.value, ast.Name):
+            refs_names.add(n.iter.func.value.id)
     for c in calls_in(fn.node):
         if isinstance(c.func, ast.Attribute) and c.func.attr == 'add' and isinstance(c.func.value, ast.Name) and c.func.value.id == alias:
             adds.append(enclosing_stmt(c))
-        if isinstance(c.func, ast.Attribute) and c.func.attr == 'append' and isinstance(c.func.value, ast.Subscript) and isinstance(c.func.value.value, ast.Name) and 'reference' in c.func.value.value.id:
+        if isinstance(c.func, ast.Attribute) and c.func.attr == 'append' and isinstance(c.func.value, ast.Subscript) and isinstance(c.func.value.value, ast.Name) and c.func.value.value.id in refs_names:
             apps.append(enclosing_stmt(c))
     ctx.floor('C01.R9', 'pending-set additions in the restore plan', len(adds))
     ctx.floor('C01.R9', 'reference appends in the restore plan', len(apps))
